@@ -177,6 +177,7 @@ def run_case(case):
             sim.protocol.dev_inst_map = dmap
 
     shared_log = []
+    parked = {}
 
     def shared_fn(d, c, r, e):
         # ONE function object registered by several subscribers: every registration must be served separately
@@ -209,6 +210,10 @@ def run_case(case):
                 else:
                     handles[k] = sim.driver.bus_traffic.register(
                         lambda d, c, r, e, k=k: subs[k]["log"].append((sim.loop.time(), cmd_fp(c), resp_fp(r), bool(e))))
+            elif k in parked:
+                # the very queue object that was taken out before is put back (pause / resume of a subscription)
+                handles[k] = parked.pop(k)
+                sim.protocol.queue_rx_dali.add_handler(handles[k])
             else:
                 handles[k] = sim.driver.new_dali_rx_queue()
         else:
@@ -221,6 +226,8 @@ def run_case(case):
                 q = handles.pop(k)
                 _drain_queue(q, subs[k], sim.loop.time())
                 sim.protocol.queue_rx_dali.del_handler(q)
+                if k % 2 == 0:
+                    parked[k] = q
 
     def _drain_queue(q, sub, t):
         while not q.empty():
@@ -475,6 +482,15 @@ def case_strategy(draw, driver=None):
                 c["oc"] = ["value", draw(st.integers(0, 255))] if draw(st.booleans()) else ["silent"]
             callers.append({"kind": "send", "cmds": [c], "t0": round(t, 4)})
             t += 0.2
+            if drv in ("luba", "sci", "tridonic") and draw(st.integers(0, 2)) == 0:
+                # another master sends the very command the driver has just sent itself
+                cmd_ = sc.build_cmd(c)
+                t += 0.31
+                inject.append({"t": round(t, 4), "kind": "forward", "bits": len(cmd_.frame), "value": cmd_.frame.as_integer,
+                               "same_as_own": True})
+                if cmd_.sendtwice:
+                    inject.append({"t": round(t + 0.02, 4), "kind": "forward", "bits": len(cmd_.frame), "value": cmd_.frame.as_integer})
+                t += 0.31
         t += draw(st.sampled_from([0.03, 0.06, 0.1, 0.31, 0.5, 0.9]))
     if drv == "tridonic" and draw(st.integers(0, 3)) == 0:
         # the gateway is unplugged and comes back in the middle of the history.  The last frame seen on the old
@@ -575,6 +591,8 @@ def features(case):
         f.append("subscriber-whose-callback-raises")
     if any(e.get("drop_handle") for e in case.get("events", [])):
         f.append("subscriber-that-does-not-keep-its-handle")
+    if any(x.get("same_as_own") for x in case.get("inject", [])):
+        f.append("other-master-repeats-the-drivers-own-command")
     if any(x.get("split") for x in case.get("inject", [])):
         f.append("observed-frame-split-over-two-reads-with-own-send-between")
     if any(x.get("during_handshake") for x in case.get("inject", [])):
